@@ -13,9 +13,12 @@ import (
 	"testing"
 	"time"
 
+	"github.com/aergoio/aergo-lib/log"
+	"github.com/aergoio/aergo/v2/config"
 	"github.com/aergoio/aergo/v2/consensus"
 	"github.com/aergoio/aergo/v2/consensus/impl/dpos/bp"
 	"github.com/aergoio/aergo/v2/consensus/impl/dpos/slot"
+	"github.com/aergoio/aergo/v2/p2p/p2pkey"
 	"github.com/aergoio/aergo/v2/types"
 	"github.com/libp2p/go-libp2p/core/crypto"
 )
@@ -58,8 +61,15 @@ func TestVerifC09Engine(t *testing.T) {
 	const nKeys = 12
 	privs := make([]crypto.PrivKey, nKeys)
 	ids := make([]string, nKeys)
+	// LOCAL IDENTITY: the verifying node has its own node key (p2pkey, as in a running block producer);
+	// key 0 of the table IS that key, so cases whose signer is 0 are blocks naming the verifier itself,
+	// all other cases blocks naming somebody else.
+	p2pkey.InitNodeInfo(&config.BaseConfig{AuthDir: t.TempDir()}, &config.P2PConfig{}, "0.0.1-verif", log.NewLogger("verif.c09"))
 	for i := range privs {
 		p, pub, _ := crypto.GenerateKeyPair(crypto.Secp256k1, 256)
+		if i == 0 {
+			p, pub = p2pkey.NodePrivKey(), p2pkey.NodePubKey()
+		}
 		privs[i] = p
 		id, _ := types.IDFromPublicKey(pub)
 		ids[i] = types.IDB58Encode(id)
@@ -135,6 +145,15 @@ func TestVerifC09Engine(t *testing.T) {
 			h.Consensus = append(h.Consensus, 1)
 		case "Sign":
 			h.Sign = flip(h.Sign)
+		case "NoSign": // no usable signature at all
+			h.Sign = []byte("not a signature")
+		case "WrongKey": // signed by another key, the header names the signer
+			other := privs[(c.Signer+1)%nKeys]
+			pk := h.PubKey
+			if err := blk.Sign(other); err != nil {
+				t.Fatal(err)
+			}
+			h.PubKey = pk
 		}
 		blk.Hash = nil
 		o := c09Obs{Ts: h.Timestamp, Now0: now0}
